@@ -305,9 +305,24 @@ def check_frame(modinfo, rel, spec, default=None, allow_self_rebind=True, ignore
                 continue
             if s.roots and s.roots <= (set(sp.get("free", ())) | {"FRESH"}):
                 continue
-            if s.roots and all(any(r == g or (g.endswith(":") and r.startswith(g)) for g in ignore_roots) or r == "FRESH"
-                               for r in s.roots):
+            if s.roots and all(any(r == g or (g[-1:] in ":*" and r.startswith(g.rstrip("*"))) for g in ignore_roots)
+                               or r == "FRESH" for r in s.roots):
                 continue
             bad.append("%s::%s line %d: `%s` writes to an object reachable from %s (shape %s)" % (
                 rel, qual, s.lineno, s.text, "/".join(sorted(s.roots)), s.shape))
     return bad
+
+
+def memoised(modinfo, rel):
+    """functions wrapped in a memoising decorator (functools.lru_cache / cache, or anything named *memo* / *cache* except
+    the per-instance cached_property): state that outlives the call without any syntactic store"""
+    out = []
+    for (qual, f, _m) in functions_of(modinfo):
+        for d in f.decorator_list:
+            txt = ast.unparse(d)
+            base = txt.split("(")[0].split(".")[-1]
+            if base in ("cached_property", "classproperty", "catch_warnings"):
+                continue
+            if base in ("lru_cache", "cache") or "memo" in base.lower() or base.lower().endswith("cache"):
+                out.append("%s::%s is memoised by @%s" % (rel, qual, txt))
+    return out
